@@ -291,7 +291,7 @@ pub fn chain_pools(tier: Tier) -> Vec<(String, ScOp)> {
             v.push((format!("cp-{x}-{y}-f{fi}"), ScOp::Setup { decs: vec![6, 6], res: vec![x, y], amp: None, fees: f.clone() }));
         }
         let amps: Vec<u64> = tier.pick(vec![1, 100], vec![1, 10, 100, 5000, 1_000_000]);
-        let decsets: Vec<Vec<u8>> = tier.pick(vec![vec![6, 6], vec![6, 18], vec![6, 6, 6, 6]], vec![vec![6, 6], vec![6, 18], vec![18, 6], vec![8, 6], vec![6, 12, 18], vec![6, 6, 6, 6]]);
+        let decsets: Vec<Vec<u8>> = tier.pick(vec![vec![6, 6], vec![6, 18], vec![8, 6], vec![6, 12], vec![6, 6, 6, 6]], vec![vec![6, 6], vec![6, 18], vec![18, 6], vec![8, 6], vec![6, 12], vec![6, 9, 12], vec![6, 12, 18], vec![6, 6, 6, 6]]);
         let mags: Vec<(u128, i32)> = tier.pick(vec![(2, -3), (100, 0)], vec![(2, -3), (3, 0), (100, 0), (1, 6), (1, 12)]);
         for amp in &amps {
             for decs in &decsets {
